@@ -37,6 +37,8 @@ pub struct Report {
     /// violations are flushed here as soon as they are recorded, so that a shard that is killed
     /// (OOM, watchdog) does not take its witnesses with it
     pub partial_path: Option<String>,
+    /// signatures starting with this prefix are counted, not reported (borrowed engines)
+    pub mute_prefix: Option<String>,
 }
 
 impl Report {
@@ -60,6 +62,7 @@ impl Report {
             histories: 0,
             rule: String::new(),
             partial_path: None,
+            mute_prefix: None,
         }
     }
     pub fn begin_history(&mut self, hist: u64) {
@@ -106,6 +109,13 @@ impl Report {
     }
     /// Record a violation (deduplicated by signature per shard: first witness kept, count kept).
     pub fn violation(&mut self, signature: &str, detail: String) {
+        // a borrowed engine's own monitors are not this property's business
+        if let Some(p) = &self.mute_prefix {
+            if signature.starts_with(p.as_str()) {
+                self.count(&format!("muted:{signature}"));
+                return;
+            }
+        }
         self.count(&format!("violation:{signature}"));
         if self.violations.iter().any(|v| v.signature == signature) {
             return;
